@@ -741,14 +741,15 @@ class FIXSchema:
             field = self._tag2field[tag]
 
             if field in self._header:
-                continue
-
-            if field not in schema_msg:
+                # header members are checked wherever they are given, its NoHops
+                #  group like any other group
+                fschema = self._header[field]
+            elif field not in schema_msg:
                 raise FIXMessageError(
                     f"msg field={field} is not allowed in {schema_msg}"
                 )
-
-            fschema = schema_msg[field]
+            else:
+                fschema = schema_msg[field]
             if isinstance(fschema, SchemaField):
                 if msg.is_group(tag):
                     raise FIXMessageError(
